@@ -83,6 +83,18 @@ public:
    /// @since  0.2, 10.04.2016
    TypedArgBase* findArg( const ArgumentKey& key) const;
 
+   /// Checks that the given key is not used by an argument in this container
+   /// and does not conflict with one of the stored keys.<br>
+   /// Used when a handler stores its arguments in two containers (arguments
+   /// and sub-group arguments) that share one key space.
+   ///
+   /// @param[in]  key  The key of the argument that should be added.
+   /// @throw
+   ///    std::invalid_argument if the key is used already or conflicts with a
+   ///    stored key.
+   /// @since  1.47.1, 01.10.2026
+   void checkKeyUnused( const ArgumentKey& key) const noexcept( false);
+
    /// Specifies the line length to use when printing the usage.
    /// Used when this container is used to store te sub-group arguments.
    /// @param[in]  useLen  The new line length to use.<br>
